@@ -278,10 +278,23 @@ def no_extremum(rng):
     return ("attr", ("set", tuple(els)), which)
 
 
+def unordered_extremum(rng):
+    """min / max of a set of two or more distinct strings / both booleans: no ordering is defined for these operand types."""
+    which = rng.choice(["min", "max"])
+    if rng.random() < 0.5:
+        els = [("bool", True), ("bool", False)] + ([("bool", rng.random() < 0.5)] if rng.random() < 0.3 else [])
+    else:
+        els = [("str", x) for x in rng.sample(["a", "b", "K", "zz", "", "0", "\u00e9", "a b"], rng.choice([2, 2, 3]))]
+    rng.shuffle(els)
+    if rng.random() < 0.3:
+        return ("attr", ("paren", ("bin", "|", ("set", tuple(els[:1])), ("set", tuple(els[1:])))), which)
+    return ("attr", ("set", tuple(els)), which)
+
+
 def inject_error(rng, t):
     """Replaces one sub-tree so that the expression becomes undefined in a known way. Returns (tree, error class)."""
     kind = rng.choice(["type-mismatch", "div-zero", "mod-zero", "bitwise-nonint", "empty-set", "empty-intersection",
-                       "heterogeneous-set", "heterogeneous-nested-set", "no-least-element", "unknown-attribute", "unknown-identifier", "order-strings", "logic-nonbool",
+                       "heterogeneous-set", "heterogeneous-nested-set", "no-least-element", "unordered-extremum", "unknown-attribute", "unknown-identifier", "order-strings", "logic-nonbool",
                        "not-nonbool", "set-vs-scalar-compare", "neg-string", "attr-on-scalar", "zero-neg-power"])
     r = lambda w: gen_tree(rng, 1, w, [1])  # noqa
     bad = {
@@ -294,6 +307,7 @@ def inject_error(rng, t):
         "heterogeneous-set": lambda: ("set", (r("r"), r(rng.choice(["b", "s"])))),
         "heterogeneous-nested-set": lambda: ("set", (r("set-r"), r(rng.choice(["set-s", "set-b", "set-set-r"])))),
         "no-least-element": lambda: no_extremum(rng),
+        "unordered-extremum": lambda: unordered_extremum(rng),
         "unknown-attribute": lambda: ("attr", r("set-r"), rng.choice(["size", "length", "Min", "first"])),
         "unknown-identifier": lambda: ("id", rng.choice(["UNKNOWN", "k7", "_x", "offset"])),
         "order-strings": lambda: ("bin", rng.choice(["<", ">="]), r("s"), r("s")),
